@@ -469,6 +469,14 @@ OPT_W = {
 
 
 def opt_samples(n, wlet):
+    if n > NMAX:
+        # larger posteriors (the index arithmetic that deals samples to ranks and puts gathered results back in
+        # sample order is only exercised beyond a handful of samples): generic distinct values and weights
+        g = fx.rng('c18', 'samples-many', n)
+        T = g.permutation(np.linspace(700.0, 1600.0, n))
+        X = g.uniform(-6.0, -3.0, size=n)
+        w = g.uniform(0.1, 1.0, size=n) if wlet != 'equal' else np.ones(n)
+        return np.column_stack([T, X]), w / w.sum()
     g = fx.rng('c18', 'samples')
     T = np.sort(g.uniform(700.0, 1600.0, size=NMAX))[::-1][[2, 0, 4, 1, 5, 3]]     # distinct, unsorted
     X = g.uniform(-6.0, -3.0, size=NMAX)
@@ -513,6 +521,9 @@ def opt_uninstall_double():
         tn.nestle.sample, tn.nestle.print_progress = tn._c18_orig_sample
 
 
+_COND_CHEM = None
+
+
 def opt_build(frac):
     """fresh model, observation, optimizer (what every MPI process builds for itself)"""
     from taurex.model import TransmissionModel
@@ -520,7 +531,21 @@ def opt_build(frac):
     from taurex.data.profiles.chemistry import TaurexChemistry, ConstantGas
     from taurex.data.spectrum import ArraySpectrum
     from taurex.optimizer.nestle import NestleOptimizer
-    chem = TaurexChemistry()
+    global _COND_CHEM
+    if _COND_CHEM is None:
+        class CondensingChemistry(TaurexChemistry):
+            """A chemistry that also reports a condensate (the documented extension point: `condensates` and
+            `condensateMixProfile`); its profile follows the water abundance, so it varies from sample to sample."""
+            @property
+            def condensates(self):
+                return ['H2O(s)']
+
+            @property
+            def condensateMixProfile(self):
+                h2o = np.asarray(self.get_gas_mix_profile('H2O'), dtype=float)
+                return (h2o * np.linspace(0.5, 2.0, h2o.shape[0]))[None, :]
+        _COND_CHEM = CondensingChemistry
+    chem = _COND_CHEM()
     chem.addGas(ConstantGas('H2O', 1e-4))
     tm = TransmissionModel(nlayers=3, atm_min_pressure=1e-1, atm_max_pressure=1e5, chemistry=chem)
     tm.add_contribution(AbsorptionContribution())
@@ -535,7 +560,7 @@ def opt_build(frac):
     return tm, obs, opt
 
 
-PROF_KEYS = ['temp_profile_std', 'active_mix_profile_std', 'inactive_mix_profile_std']
+PROF_KEYS = ['temp_profile_std', 'active_mix_profile_std', 'inactive_mix_profile_std', 'condensate_profile_std']
 SPEC_KEYS = ['native_std', 'binned_std']
 DER_KEYS = ['value', 'sigma_m', 'sigma_p', 'mean']
 
@@ -600,6 +625,7 @@ def opt_reference(samples, frac):
         q = {'temp_profile_std': np.array(tm.temperatureProfile, dtype=float, copy=True),
              'active_mix_profile_std': np.array(tm.chemistry.activeGasMixProfile, dtype=float, copy=True),
              'inactive_mix_profile_std': np.array(tm.chemistry.inactiveGasMixProfile, dtype=float, copy=True),
+             'condensate_profile_std': np.array(tm.chemistry.condensateMixProfile, dtype=float, copy=True),
              'native_std': np.array(native, dtype=float, copy=True),
              'binned_std': np.array(opt._binner.bindown(grid, native)[1], dtype=float, copy=True)}
         opt.update_model(p)
@@ -783,13 +809,18 @@ def opt_cases(tier):
     if tier == 'quick':
         cases = core.product_cases(dims, core=['R', 'n', 'wlet', 'perm'], d=2)
         # keep the 2-deviation shell small: only where frac / entry are involved with R or n
-        bound = {'R': 3, 'n': 4, 'product': 'R x n x weights x draw-order full; sigma_fraction, entry: <=2 deviations'}
+        bound = {'R': 3, 'n': 4, 'product': 'R x n x weights x draw-order full; sigma_fraction, entry: <=2 deviations',
+                 'large_n': [9, 17, 24]}
+        cases += [{'R': R, 'n': n, 'wlet': wl, 'perm': 0, 'frac': 1.0, 'entry': 'direct'} for R in (2, 3)
+                  for n in (9, 17, 24) for wl in ('distinct', 'equal')]
     else:
         dims['R'] = [1, 2, 3, 4]
         dims['n'] = [4, 1, 2, 3, 5, 6]
         dims['perm'] = [0, 1, 2]
         cases = core.product_cases(dims, full=True)
-        bound = {'R': 4, 'n': 6, 'product': 'full'}
+        cases += [{'R': R, 'n': n, 'wlet': wl, 'perm': 0, 'frac': fr, 'entry': en} for R in (2, 3, 4, 5)
+                  for n in (9, 17, 24, 40) for wl in ('distinct', 'equal') for fr in (1.0, 0.5) for en in ('direct', 'fit')]
+        bound = {'R': 4, 'n': 6, 'product': 'full', 'large_n': [9, 17, 24, 40]}
     return cases, bound
 
 
